@@ -28,8 +28,8 @@ theorem cert_pi {D : ∀ i, Set (F i)} {φ : ∀ i, F i → ℝ} {lam : ℝ} {v 
 
 /-- **separable sum, general case**: component-wise global minimisers minimise the sum. -/
 theorem min_pi {D : ∀ i, Set (F i)} {φ : ∀ i, F i → ℝ} {lam : ℝ} {v p : PiLp 2 F}
-    (h : ∀ i, IsMin (D i) (φ i) lam (v i) (p i)) :
-    IsMin {x : PiLp 2 F | ∀ i, x i ∈ D i} (fun x => ∑ i, φ i (x i)) lam v p := by
+    (h : ∀ i, IsGMin (D i) (φ i) lam (v i) (p i)) :
+    IsGMin {x : PiLp 2 F | ∀ i, x i ∈ D i} (fun x => ∑ i, φ i (x i)) lam v p := by
   refine ⟨fun i => (h i).1, fun x hx => ?_⟩
   rw [PiLp.norm_sq_eq_of_L2, PiLp.norm_sq_eq_of_L2, Finset.mul_sum, Finset.mul_sum, Finset.mul_sum,
     Finset.mul_sum, ← Finset.sum_add_distrib, ← Finset.sum_add_distrib]
@@ -40,8 +40,8 @@ theorem min_pi {D : ∀ i, Set (F i)} {φ : ∀ i, F i → ℝ} {lam : ℝ} {v p
 /-- converse of `min_pi` at one coordinate: if the assembled point is a global minimiser then so is
     each component (used to show that a wrong coordinate makes the whole vector sub-optimal). -/
 theorem min_pi_coord [DecidableEq ι] {D : ∀ i, Set (F i)} {φ : ∀ i, F i → ℝ} {lam : ℝ} {v p : PiLp 2 F}
-    (h : IsMin {x : PiLp 2 F | ∀ i, x i ∈ D i} (fun x => ∑ i, φ i (x i)) lam v p) (i : ι) :
-    IsMin (D i) (φ i) lam (v i) (p i) := by
+    (h : IsGMin {x : PiLp 2 F | ∀ i, x i ∈ D i} (fun x => ∑ i, φ i (x i)) lam v p) (i : ι) :
+    IsGMin (D i) (φ i) lam (v i) (p i) := by
   refine ⟨h.1 i, fun a ha => ?_⟩
   -- competitor: p with coordinate i replaced by a
   set x : PiLp 2 F := toLp 2 (Function.update (ofLp p) i a) with hx
